@@ -9,6 +9,7 @@
 
 mod fcsched;
 mod puresweep;
+mod racestress;
 mod seqcase;
 mod seqdiff;
 mod util;
@@ -21,6 +22,7 @@ fn main() {
         Some("puresweep") => puresweep::main_puresweep(&args[1..]),
         Some("fcsched") => fcsched::main_fcsched(&args[1..]),
         Some("fccase") if args.len() == 1 => fcsched::main_fccase(),
+        Some("racestress") => racestress::main_racestress(&args[1..]),
         _ => {
             eprintln!(
                 "usage:\n  harness seqdiff <cases-file> <results-file> [--jobs N]\n  harness seqcase < case > result\n  harness puresweep <ops-file> <results-file>\n  harness fcsched <cases-file> <results-file> [--jobs N]\n  harness fccase < case > result"
